@@ -345,3 +345,43 @@ func noAnswerBeforeTheScan(c rc, names ...string) {
 		}
 	}
 }
+
+// workOnEveryPath (PT2): an operation's essential effect - the store, the call it exists
+// for - lies on every path from its entry to a return (at least once); an early return
+// that skips it for some state or argument is a silent no-op. stores of field `field` of
+// type typ (when field != "") and calls of functions named in calls both count.
+func workOnEveryPath(c rc, name, object, typ, field string, calls []string, reason string) {
+	fn := c.p.Func(name)
+	if fn == nil || len(fn.Blocks) == 0 {
+		return
+	}
+	is := func(in ssa.Instruction) bool {
+		switch x := in.(type) {
+		case *ssa.Store:
+			if field != "" {
+				if fa, ok := x.Addr.(*ssa.FieldAddr); ok && isFieldOf(fa, typ, field) {
+					return true
+				}
+			}
+		case ssa.CallInstruction:
+			if cal := path.StaticCallee(x); cal != nil {
+				for _, n := range calls {
+					if cal.Name() == n {
+						return true
+					}
+				}
+			}
+			if mc, ok := x.Common().Value.(*ssa.MakeClosure); ok {
+				if f, ok := mc.Fn.(*ssa.Function); ok {
+					for _, n := range calls {
+						if n == "go func" && f.Parent() == fn {
+							return true
+						}
+					}
+				}
+			}
+		}
+		return false
+	}
+	c.ob("PT2", name, object, c.fpos(fn), path.MinCount(fn, is) >= 1, reason)
+}
